@@ -268,7 +268,10 @@ func wirePolicy(w *World) {
 	}
 	force := w.KnobBool("force", 60)
 	trusted := w.KnobBool("trusted_ca", 50)
-	tcfg := map[string]any{"certFile": cd + "/server.crt", "keyFile": cd + "/server.key", "force": force}
+	tcfg := map[string]any{"force": force}
+	if w.KnobBool("server_cert_files", 60) {
+		tcfg["certFile"], tcfg["keyFile"] = cd+"/server.crt", cd+"/server.key"
+	} // else frps generates a throw-away certificate: the policy must hold all the same
 	if trusted {
 		tcfg["trustedCaFile"] = cd + "/ca.crt"
 	}
